@@ -18,9 +18,11 @@ import (
 	"github.com/cockroachdb/logtags"
 	pkgerrors "github.com/pkg/errors"
 	"google.golang.org/grpc/codes"
+	grpcstatus "google.golang.org/grpc/status"
 
 	"verifharness/internal/cat"
 	"verifharness/internal/faults"
+	"verifharness/internal/grpcsvc"
 	"verifharness/internal/mig"
 	"verifharness/internal/p1"
 	"verifharness/internal/p4"
@@ -57,6 +59,8 @@ type Env struct {
 	LastHop *wire.HopInfo
 	// Result of the last StackCall.
 	LastStack *p1.Result
+	// Result of the last Grpc call.
+	LastGrpc *grpcsvc.Result
 	// Processes of the migration family.
 	World *mig.World
 	// RegMig: the registration panicked.
@@ -348,6 +352,14 @@ func (env *Env) build(st *Step) error {
 		return goerrors.Join(errs...)
 	case "GoWrap2":
 		return fmt.Errorf("%w"+tok.FmtEscape(st.S)+"%w", e, x)
+	case "GrpcStatus":
+		return grpcstatus.Error(codes.NotFound, s)
+	case "Grpc":
+		// the handler returns e behind the server interceptor; the caller sits
+		// behind the client interceptor
+		r := grpcsvc.Call(e)
+		env.LastGrpc = r
+		return r.Err
 	case "Hop":
 		if e == nil {
 			return nil
